@@ -37,10 +37,12 @@ class _Ctx:
 
 
 class CFG:
-    def __init__(self, fn, implicit_exc: bool = False):
-        """fn: FunctionDef / AsyncFunctionDef / Lambda(not supported) / Module."""
+    def __init__(self, fn, implicit_exc: bool = False, nothrow=None):
+        """fn: FunctionDef / AsyncFunctionDef / Lambda(not supported) / Module.
+        nothrow(stmt) -> True for statements that cannot raise (no exceptional edge is added for them)."""
         self.fn = fn
         self.implicit_exc = implicit_exc
+        self.nothrow = nothrow
         self.nodes: list[Node] = []
         self.succ: dict[int, list[tuple[int, Optional[tuple]]]] = {}
         self.pred: dict[int, list[tuple[int, Optional[tuple]]]] = {}
@@ -93,6 +95,8 @@ class CFG:
         return out
 
     def _add_exc_edges(self, nid, ctx, explicit=False):
+        if self.nothrow is not None and not explicit and self.nodes[nid].kind == "stmt" and self.nothrow(self.nodes[nid].ast):
+            return
         if ctx.handlers or explicit or self.implicit_exc:
             for t in self._exc_targets(ctx):
                 self._edge((nid, ("<exc>", True)), t)
@@ -593,3 +597,17 @@ def _is_catch_all(h: ast.ExceptHandler) -> bool:
     else:
         names = [dotted(h.type)]
     return any(n in ("BaseException", "Exception") for n in names)
+
+
+def plain_store_nothrow(st) -> bool:
+    """Assignments of a name/constant/attribute to a name or self attribute, pass, and constant returns cannot raise
+    (for the purposes of ordering rules; MemoryError and the like are out of scope)."""
+    if isinstance(st, ast.Pass):
+        return True
+    if isinstance(st, ast.Assign):
+        simple_val = isinstance(st.value, (ast.Name, ast.Constant)) or (isinstance(st.value, ast.Attribute) and isinstance(st.value.value, ast.Name))
+        simple_tgt = all(isinstance(t, ast.Name) or (isinstance(t, ast.Attribute) and isinstance(t.value, ast.Name)) for t in st.targets)
+        return simple_val and simple_tgt
+    if isinstance(st, ast.Return):
+        return st.value is None or isinstance(st.value, (ast.Name, ast.Constant))
+    return False
